@@ -4,6 +4,7 @@ set -u
 patch=$1; prop=$2; tier=${3:-quick}
 R=/tmp/repo_mut
 export GOFLAGS=-mod=mod GOPROXY=off GOSUMDB=off GOTOOLCHAIN=local
+[ -d $R ] || git -C /repo worktree add -q --detach $R HEAD
 cd $R && git checkout -q -- . && git clean -fdq
 if ! git apply "$patch" 2>/tmp/apply_err.txt; then echo "PATCH-DOES-NOT-APPLY: $(head -2 /tmp/apply_err.txt)"; exit 2; fi
 if ! go build ./... 2>/tmp/build_err.txt; then echo "BUILD-FAILS"; head -5 /tmp/build_err.txt; git checkout -q -- .; exit 2; fi
@@ -11,4 +12,5 @@ out=$(cd /verif && GOSYM_REPO=$R timeout 3000 /verif/bin/gosym check $prop --tie
 code=$?
 echo "$out" | grep -E "^(VIOLATION|KNOWN-FINDING|INCONCLUSIVE|check )" | cut -c1-260 | sort | uniq -c | sort -rn | head -12
 echo "exit=$code"
+[ -d $R ] || git -C /repo worktree add -q --detach $R HEAD
 cd $R && git checkout -q -- . && git clean -fdq
